@@ -14,6 +14,9 @@ CONSTANTS
   Hook = FALSE
   Steer = TRUE
   Emit = TRUE
+  Clamp = "min1"
+  ErrSet = {}
+  AEIgnore = "nil"
 INVARIANTS PrintFinal
 VIEW View
 CHECK_DEADLOCK FALSE
